@@ -8,8 +8,8 @@ import gsrouter_lib as g  # noqa: E402
 META = {
     "level": "model_checking",
     "technique": "TLA+ single-router model (Gossipsub.tla) with whitelist + max-count filter model-checked for FilterBound (+ canary: GRAFT bypasses the filter); tracked topic sets of the real Behaviour under whitelist / max-count / combined filters validated by TLC after every RPC against TraceGossipsub",
-    "text": "TLC exhaustively checks that tracked topics stay within the allowed set and the max count under all subscription/GRAFT interleavings, and rejects the canary in which GRAFT records a topic without consulting the filter. Conformance: the real Behaviour is built with WhitelistSubscriptionFilter, MaxCountSubscriptionFilter(AllowAll), MaxCount(Whitelist) and MaxCount(Combined(Whitelist, Callback)); subscription RPCs with 1-6 entries (duplicates, subscribe/unsubscribe pairs, over-long requests) go through the real codec; after every RPC TLC checks: tracked topics are allowed, their number is within max_subscribed_topics, an over-long request changes nothing, a request is applied completely or not at all, and nothing unrequested changes. A second schedule class adds GRAFTs for arbitrary topics (design section 7-10).",
-    "note": "CombinedSubscriptionFilters is exercised inside MaxCountSubscriptionFilter (the composition whose limits are enforced); RegexSubscriptionFilter is not exercised (CallbackSubscriptionFilter stands in).",
+    "text": "TLC exhaustively checks that tracked topics stay within the allowed set and the max count under all subscription/GRAFT interleavings, and rejects the canary in which GRAFT records a topic without consulting the filter. Conformance: the real Behaviour is built with WhitelistSubscriptionFilter, MaxCountSubscriptionFilter(AllowAll), MaxCount(Whitelist), MaxCount(Combined(Whitelist, Callback)) and Combined(MaxCount(AllowAll), Whitelist); subscription RPCs with 1-6 entries (duplicates, subscribe/unsubscribe pairs, over-long requests) go through the real codec; after every RPC TLC checks: tracked topics are allowed, their number is within max_subscribed_topics, an over-long request changes nothing, a request is applied completely or not at all, and nothing unrequested changes. A second schedule class adds GRAFTs for arbitrary topics (design section 7-10).",
+    "note": "CombinedSubscriptionFilters is exercised both around and inside MaxCountSubscriptionFilter; RegexSubscriptionFilter is not exercised (CallbackSubscriptionFilter stands in).",
     "design_ref": "6/C36",
 }
 
@@ -27,6 +27,6 @@ def run(c):
     g.validate(c, "TraceGossipsub_C36.cfg", traces, nontrivial, attribute=attr)
     return c.finish(
         "model_checking",
-        rule="schedule classes filter (subscription RPCs only) and filterg (+ GRAFTs): 2 directed each + seeded random schedules (length 20..40) over 3-5 topics, filter kind in {whitelist, maxcount, maxcount(whitelist), maxcount(combined)}, max_subscribed 1..3, max per request 1..4; distinct = distinct schedules with at least one subscription request",
+        rule="schedule classes filter (subscription RPCs only) and filterg (+ GRAFTs): 2 directed each + seeded random schedules (length 20..40) over 3-5 topics, filter kind in {whitelist, maxcount, maxcount(whitelist), maxcount(combined), combined(maxcount, whitelist)}, max_subscribed 1..3, max per request 1..4; distinct = distinct schedules with at least one subscription request",
         assumptions=g.ASSUMPTIONS,
     )
